@@ -314,6 +314,8 @@ def gen_gain(rng):
                     z = complex(np.nan, np.nan)
                 elif r < 0.2:
                     z = complex(np.nan, 1.0)
+                elif r < 0.24:
+                    z = 0j                       # a dead signal path: a valid solution whose inverse is not a number
                 v[ch, k // 2, k % 2] = z
         if dead:
             v[:, dead[0], dead[1]] = np.nan
